@@ -1,0 +1,17 @@
+//go:build verif
+
+package elasticsearch
+
+import "github.com/ozontech/file.d/pipeline"
+
+// VerifOut calls the batch output function the batcher workers call (verification only).
+func (p *Plugin) VerifOut(workerData *pipeline.WorkerData, batch *pipeline.Batch) error {
+	return p.out(workerData, batch)
+}
+
+// VerifSetTime fixes the value substituted for the @time index placeholder.
+func (p *Plugin) VerifSetTime(s string) {
+	p.mu.Lock()
+	p.time = s
+	p.mu.Unlock()
+}
